@@ -7,3 +7,10 @@ let () =
        | None -> "NOKIND"
        | Some f -> f args)
     | _ -> "BADCASE")
+
+(* c05.npv <hex> <tape>: the executable side condition of the write_tape no-crash theorems
+   (Props/C05_wtape.v) evaluated on the real parser's tape *)
+let () =
+  Glue.register "c05.npv" (function
+    | [_; tape] -> if WriteTapeSide.no_param_valuesb (Ttglue.tape_of_string tape) then "1" else "0"
+    | _ -> "BADCASE")
